@@ -1,6 +1,7 @@
 """Kill-point and interruption harness for C06 (DESIGN §5 C06, §2.2).
 
-A *scenario* is a small generated project (2-4 python-action tasks with file_dep / task_dep, optionally a failing task),
+A *scenario* is a small generated project (2-4 python-action tasks with file_dep / task_dep, optionally a failing task;
+tasks may have a first action that returns values and an `uptodate` version check over the saved value),
 a pre-history (no DB / a full run / a full run followed by edits), a backend and a runner kind.  Everything runs as
 real `python -m doit` subprocesses in a scratch directory:
 
@@ -80,6 +81,19 @@ def mk(name, spec):
         return ok
     return act
 
+def mk_val(name, spec):
+    # an earlier action of the task returning values (saved as `_values_:` only when the whole task succeeds)
+    def val():
+        ev(ev='val', t=name)
+        return {'dig': digest(spec['file_dep'])}
+    return val
+
+def mk_utd(name, spec):
+    # a "version check": up-to-date iff the value saved by the last successful execution describes the present inputs
+    def utd(task, values):
+        return values.get('dig') == digest(spec['file_dep'])
+    return utd
+
 def gen():
     for name, spec in SC['tasks'].items():
         def creator(name=name, spec=spec):
@@ -88,8 +102,13 @@ def gen():
                 # doit.tools.PythonInteractiveAction: same contract as a python-action, no output capture
                 from doit.tools import PythonInteractiveAction
                 act = PythonInteractiveAction(act)
-            d = {'basename': name, 'actions': [act], 'file_dep': spec['file_dep'],
+            acts = [mk_val(name, spec), act] if spec.get('values') else [act]
+            d = {'basename': name, 'actions': acts, 'file_dep': spec['file_dep'],
                  'task_dep': spec['task_dep']}
+            if spec.get('versioned'):
+                # the inputs are watched by an uptodate callable over a SAVED VALUE instead of doit's file_dep
+                d['file_dep'] = []
+                d['uptodate'] = [mk_utd(name, spec)]
             if spec.get('teardown'):
                 d['teardown'] = [mk_td(name)]
             return d
@@ -157,6 +176,10 @@ def gen_scenario(rng, mode):
         tasks[nm] = {'file_dep': deps, 'task_dep': [names[j] for j in range(i) if rng.random() < 0.35],
                      'teardown': rng.random() < 0.4,
                      'kind': 'interactive' if rng.random() < 0.25 else 'py'}
+        if rng.random() < 0.5:
+            # multi-action task: a first action returning values; half of them decide up-to-date-ness from the saved value
+            tasks[nm]['values'] = True
+            tasks[nm]['versioned'] = rng.random() < 0.5
     backend = rng.choice(BACKENDS)
     runner = rng.choices(['serial', 'process2', 'thread2'], [6, 1, 2])[0]
     pre = rng.choice(['none', 'run', 'run+edit', 'run+edit']) if mode == 'kill' else rng.choice(['none', 'run+edit'])
